@@ -142,6 +142,9 @@ func Load(roots []string, extraEnv []string, overlay map[string][]byte) (*Progra
 		}
 	}
 	prog.SSA = sprog
+	if !skipRefNames {
+		applyRefNames(prog)
+	}
 	prog.LoadSecs = time.Since(t0).Seconds()
 	return prog, nil
 }
@@ -184,6 +187,9 @@ func (p *Program) Pos(pos token.Pos) string {
 // module-relative package paths: "router.newDataPlane",
 // "(*router.scionPacketProcessor).process", "(pkg/addr.IA).Equal".
 func (p *Program) LookupFunc(q string) (*ssa.Function, error) {
+	if n, ok := funcOldToNew[q]; ok {
+		q = n // the function recorded under this name was renamed (see localnames.go)
+	}
 	ptr := false
 	var pkgRel, tn, name string
 	if strings.HasPrefix(q, "(") {
@@ -256,9 +262,7 @@ func FuncName(fn *ssa.Function) string {
 	if fn == nil {
 		return "<nil>"
 	}
-	s := fn.String()
-	s = strings.ReplaceAll(s, modPath+"/", "")
-	return s
+	return canonFuncString(rawFuncName(fn))
 }
 
 // ObjName renders a types.Func relative to the module.
@@ -266,7 +270,7 @@ func ObjName(fn *types.Func) string {
 	if fn == nil {
 		return "<nil>"
 	}
-	return strings.ReplaceAll(fn.FullName(), modPath+"/", "")
+	return canonFuncString(strings.ReplaceAll(fn.FullName(), modPath+"/", ""))
 }
 
 func debugImports(p2 []*packages.Package) {
